@@ -221,10 +221,10 @@ class Judge:
         return None
 
 
-def analyse_renderer(prog: Program, cname: str, token_params=("trailing_comma",)):
+def analyse_renderer(prog: Program, cname: str, token_params=("trailing_comma",), entry: str = "rebuild"):
     """Run the content-flow interpreter on cname.rebuild and judge every content field.
     Returns (flow, returns, table, problems) where problems = list of dicts."""
-    f = prog.method(cname, "rebuild")
+    f = prog.method(cname, entry)
     if f is None:
         return None
     table = field_table(prog, cname)
@@ -243,6 +243,8 @@ def analyse_renderer(prog: Program, cname: str, token_params=("trailing_comma",)
     problems = []
     n_ob = 0
     for (node, av, conds) in rets:
+        if entry != "rebuild" and (getattr(node, "value", None) is None or (isinstance(node.value, ast.Constant) and node.value.value is None)):
+            continue  # an alternative renderer answering "no preview": the caller renders the node itself
         av = av.flat()
         if STAR in av.d and not av.d[STAR]:
             continue  # delegates to a whole-node renderer (rebuild_scoped / str(self))
